@@ -42,6 +42,10 @@ type Config struct {
 	AdvertMs int      `json:"advert_ms"`
 	DeadMs   int      `json:"dead_ms"`
 	Late     []int    `json:"late,omitempty"` // routers that are started only by a "restart" op
+	// Passive lists directed pairs {i, j}: router i has no neighbour entry for j in its configuration (the link is
+	// configured at j's end only). i then hears j on the active sync prefix and answers on the passive one, along
+	// the route it registers for the face it heard j on; j hears i on the passive prefix only.
+	Passive [][2]int `json:"passive,omitempty"`
 }
 
 type Op struct {
@@ -193,6 +197,20 @@ func (Engine) Generate(prop string, r *kit.Rand, tier string) *kit.Scenario[Conf
 	if prop == "C19" && r.Chance(0.3) && c.N > 2 {
 		c.Late = []int{r.Intn(c.N)}
 	}
+	if r.Chance(0.4) {
+		// links configured at one end only (any pair: links that come up later included)
+		for a := 0; a < c.N; a++ {
+			for b := a + 1; b < c.N; b++ {
+				if r.Chance(0.4) {
+					if r.Bool() {
+						c.Passive = append(c.Passive, [2]int{a, b})
+					} else {
+						c.Passive = append(c.Passive, [2]int{b, a})
+					}
+				}
+			}
+		}
+	}
 	nops := r.Range(5, 80)
 	if r.Chance(0.4) {
 		nops = r.Range(3, 20)
@@ -316,21 +334,7 @@ func (Engine) Generate(prop string, r *kit.Rand, tier string) *kit.Scenario[Conf
 			}
 		case 11:
 			o := Op{Op: "corrupt", K: r.Intn(16)}
-			huge := []uint64{0, 1, 2, 127, 252, 253, 254, 255, 256, 65535, 65536, 1 << 31, 1<<32 - 1, 1 << 32, 1<<63 - 1, 1 << 63, 1<<64 - 1}
-			switch r.Weighted([]int{4, 5, 2, 3, 3, 2}) {
-			case 0:
-				o.Mut, o.At, o.Val = "len", r.Intn(64), kit.Pick(r, huge)
-			case 1:
-				o.Mut, o.At, o.Val = "lenfix", r.Intn(64), kit.Pick(r, huge)
-			case 2:
-				o.Mut, o.At = "trunc", r.Intn(2000)
-			case 3:
-				o.Mut, o.At, o.Val = "flip", r.Intn(2000), uint64(1+r.Intn(255))
-			case 4:
-				o.Mut, o.At, o.Val = "type", r.Intn(64), uint64(r.Intn(256))
-			case 5:
-				o.Mut, o.At, o.Val = "insert", r.Intn(2000), uint64(r.Intn(1<<16))
-			}
+			o.Mut, o.At, o.Val = facesim.GenMutFix(r, 64, 2000)
 			sc.Ops = append(sc.Ops, o, Op{Op: "deliver", K: o.K})
 		case 0:
 			sc.Ops = append(sc.Ops, Op{Op: "tick", R: r.Intn(c.N)})
@@ -409,6 +413,7 @@ func (Engine) Simplify(sc *kit.Scenario[Config, Op]) []*kit.Scenario[Config, Op]
 		c := sc.Config
 		c.Links = append([][2]int(nil), c.Links...)
 		c.Late = append([]int(nil), c.Late...)
+		c.Passive = append([][2]int(nil), c.Passive...)
 		f(&c)
 		n.Config = c
 		out = append(out, n)
@@ -419,6 +424,13 @@ func (Engine) Simplify(sc *kit.Scenario[Config, Op]) []*kit.Scenario[Config, Op]
 	}
 	if len(sc.Config.Late) > 0 {
 		modC(func(c *Config) { c.Late = nil })
+	}
+	if len(sc.Config.Passive) > 0 {
+		modC(func(c *Config) { c.Passive = nil })
+		for i := range sc.Config.Passive {
+			i := i
+			modC(func(c *Config) { c.Passive = append(c.Passive[:i], c.Passive[i+1:]...) })
+		}
 	}
 	// drop the highest-numbered router if nothing refers to it
 	if sc.Config.N > 2 {
@@ -567,6 +579,7 @@ type world struct {
 	res              *kit.Result
 	nodes            []*node
 	linkUp           map[[2]int]bool
+	passive          map[[2]int]bool // {i, j}: i has no configured neighbour entry for j
 	everLink         map[[2]int]bool
 	faceOf           map[[2]int]uint64 // (at, towards) -> face id
 	inflight         []*message
@@ -848,8 +861,31 @@ func (w *world) onInterest(n *node, in *spec.Interest, raw []byte) {
 	case hasPrefix(name, "/localhost/nfd"):
 		w.onMgmt(n, in)
 	case hasPrefix(name, "/localhop/ndn/32=DV/32=ADS"):
+		// What the forwarder does with the two sync prefixes: the active one has a route to every configured
+		// neighbour, the passive one the routes the router itself registered for faces it heard a neighbour on
+		which := name[len(name)-3].String()
 		for j := range w.nodes {
-			if j != n.id && w.linkUp[lk(n.id, j)] && w.nodes[j].alive {
+			if j == n.id {
+				continue
+			}
+			switch which {
+			case "32=ACT":
+				if w.passive[[2]int{n.id, j}] {
+					continue
+				}
+			case "32=PSV":
+				has := false
+				for k := range n.routes {
+					if k.name == "/localhop/ndn/32=DV/32=ADS/32=PSV" && k.face == w.faceOf[[2]int{n.id, j}] {
+						has = true
+					}
+				}
+				if !has {
+					w.ctx.Probe("passive-sync-without-route")
+					continue
+				}
+			}
+			if w.linkUp[lk(n.id, j)] && w.nodes[j].alive {
 				w.enqueue(&message{key: fmt.Sprintf("1sync|%d|%d|%s", n.id, j, name[len(name)-3].String()), kind: "sync", src: n.id, dst: j,
 					frame: lpWrap(raw, w.faceOf[[2]int{j, n.id}])})
 			}
@@ -1134,6 +1170,12 @@ func (w *world) run() {
 	for a := 0; a < c.N; a++ {
 		for b := 0; b < c.N; b++ {
 			w.faceOf[[2]int{a, b}] = uint64(100 + b)
+		}
+	}
+	w.passive = map[[2]int]bool{}
+	for _, p := range c.Passive {
+		if !w.passive[[2]int{p[1], p[0]}] { // a link is configured at one end at least
+			w.passive[p] = true
 		}
 	}
 	for _, n := range w.nodes {
@@ -1848,7 +1890,7 @@ func (w *world) settle() {
 	// "ties are broken the same way every time": routers started afresh on the final topology, fed in plain
 	// first-in-first-out order, must choose the same next hops as this history did.
 	if w.sc.Property == "C18" && w.parent == nil && w.res.Violation == nil {
-		c2 := Config{N: c.N, AdvertMs: c.AdvertMs, DeadMs: c.DeadMs}
+		c2 := Config{N: c.N, AdvertMs: c.AdvertMs, DeadMs: c.DeadMs, Passive: c.Passive}
 		for l, up := range w.linkUp {
 			if up && w.nodes[l[0]].alive && w.nodes[l[1]].alive {
 				c2.Links = append(c2.Links, l)
